@@ -19,7 +19,7 @@ def run_check(pid, tier, seed):
     claim = CLAIMS[pid]
     ctx = core.Ctx(pid, tier, seed)
     mod = importlib.import_module("mtsa.rules.%s" % pid.lower())
-    cfgs = [""] if tier == "quick" else ["", "log"]
+    cfgs = ["", "log"] if os.environ.get("MTSA_CFGS", "both") == "both" else [""]
     for feats in cfgs:
         facts = core.ensure_facts(feats)
         ctx.cfg = feats or "default"
